@@ -15,7 +15,7 @@ import os
 import sys
 sys.path.insert(0, os.path.dirname(os.path.abspath(__file__)))
 from build import *            # noqa: E402,F401,F403
-from build_pomdp import build_pomdp   # noqa: E402
+from build_pomdp import build_pomdp, fingerprint   # noqa: E402
 
 NEVER = "never-emitted-observation"
 
@@ -29,7 +29,24 @@ def guarded(fn):
         return {"error": type(e).__name__ + ": " + str(e)[:300]}
 
 
+_FIRST = []          # [case, result] of the first POMDP this process built
+_COUNT = [0]
+
+
 def one(case, pl):
+    """evaluate the case; every 5th case of the process additionally rebuilds the FIRST POMDP of the process
+    (a varying number of unrelated constructions in between) and compares with what it gave the first time"""
+    import copy
+    res = compute(case)
+    _COUNT[0] += 1
+    if not _FIRST:
+        _FIRST.extend([copy.deepcopy(case), copy.deepcopy(res)])
+    elif _COUNT[0] % 5 == 0:
+        res["rebuild_first_equal"] = guarded(lambda: compute(_FIRST[0]) == _FIRST[1])
+    return res
+
+
+def compute(case):
     import numpy as np
     from msdm.core.distributions import DictDistribution
     from msdm.core.distributions.dictdistribution import DeterministicDistribution, UniformDistribution
@@ -39,7 +56,9 @@ def one(case, pl):
 
     var = case.get("variant", {})
     pomdp = build_pomdp(case["pomdp"], explicit_lists=case.get("explicit_lists", False), labels=var.get("labels"),
-                        int01=var.get("int01", False), dist_types=var.get("dist_types", False))
+                        int01=var.get("int01", False), dist_types=var.get("dist_types", False),
+                        share_objects=var.get("share_objects", False))
+    fp0 = fingerprint(pomdp)
     S, A, O = pomdp._gen_S, pomdp._gen_A, pomdp._gen_O          # id -> label
     order = var.get("order", "matrix-first")
     # an observation LISTED with explicit probability 0 and possible nowhere plays the part of the
@@ -116,6 +135,8 @@ def one(case, pl):
             bvec = tuple(probs)
         elif vk == "intarray" and all(float(p) == int(p) for p in probs):
             bvec = np.array([int(p) for p in probs])
+        elif vk == "float32" and all(float(np.float32(p)) == float(p) for p in probs):
+            bvec = np.array(probs, dtype=np.float32)
         else:
             bvec = np.array(probs, dtype=float)
         btup = Belief(tuple(s for s, _ in pairs), tuple(p for _, p in pairs))
@@ -123,6 +144,7 @@ def one(case, pl):
                 [float(x) for x in own0[0][0].probs] == [float(p) for p in probs]:
             btup = own0[0][0]
         ix = (lambda i: np.int64(i)) if be.get("npidx") else (lambda i: i)
+        snap = (type(bdict).__name__, repr(list(bdict.items())), type(bvec).__name__, repr(list(bvec)), repr(btup))
         out = {"is_absorbing": guarded(lambda: bool(bmdp.is_absorbing(btup))), "actions": []}
         offered = case["pomdp"]["actions"]
         for ai, a in enumerate(al):
@@ -154,13 +176,41 @@ def one(case, pl):
             r["belief_reward"] = guarded(lambda: fj(bmdp.reward(btup, a, None)))
             r["belief_actions"] = guarded(lambda: [aid[x] for x in bmdp.actions(btup)])
             out["actions"].append(r)
+        if snap != (type(bdict).__name__, repr(list(bdict.items())), type(bvec).__name__, repr(list(bvec)), repr(btup)):
+            mutated.append("belief objects of belief kind %s" % be.get("kind"))
         return out
 
+    mutated = []
+    # results of the first calls are kept and re-read after everything else ran (stale / aliased results)
+    keep = []
+    if case["beliefs"]:
+        b0 = DictDistribution({S[i]: fl(x) for i, x in enumerate(case["beliefs"][0]["b"]) if S[i] in sidx})
+        adm = [a for a in al if all(fl(x) == 0 or aid[a] in case["pomdp"]["actions"][i]
+                                    for i, x in enumerate(case["beliefs"][0]["b"]))]
+        rd = lambda x: repr(sorted((repr(k), v) for k, v in x.items()))   # noqa: E731
+        rl = lambda x: repr(list(x))                                       # noqa: E731
+        ri = lambda x: repr(list(x.items()))                               # noqa: E731
+        try:
+            for a in adm[:1]:
+                for o in ol[:2]:
+                    d = pomdp.state_estimator(b0, a, o)
+                    keep.append((d, rd, rd(d)))
+                v = pomdp.state_estimator_vec(np.array([b0.prob(s) for s in sl]), al.index(a), 0)
+                keep.append((v, rl, rl(v)))
+                nd = bmdp.next_state_dist(Belief(tuple(sl), tuple(b0.prob(s) for s in sl)), a)
+                keep.append((nd, ri, ri(nd)))
+        except BaseException as e:      # the same calls are made (and reported) under guard below
+            if isinstance(e, (KeyboardInterrupt, SystemExit)):
+                raise
     for be in case["beliefs"]:
         res["beliefs"].append(evaluate(be))
     # object reuse: after everything else ran on the same objects, the first beliefs give the same answers
     k = min(2, len(case["beliefs"]))
     res["repeat_equal"] = [evaluate(be) == prev for be, prev in zip(case["beliefs"][:k], res["beliefs"][:k])]
+    fp1 = fingerprint(pomdp)
+    mutated += ["pomdp input: " + k for k in fp0 if fp0[k] != fp1[k]]
+    res["mutated_inputs"] = mutated
+    res["stale_results_unchanged"] = all(fn(x) == s0 for x, fn, s0 in keep)
     return res
 
 
